@@ -1130,6 +1130,63 @@ DOC_TEXTS = ['doc', 'multi\nline doc', 'with "quotes" inside', "with \'\'\'tripl
 COMMENTS = ['new comment', 'c', '\u00fc comment', 'has # hash', None, None]
 
 
+PRIM_CONST = [0, 1, 5, 1.5, 'q', b'b', None, True, False, '\u00fc', 10 ** 20, 'two words']
+PRIM_IDENT = ['nm', 'if_', '\u00fc2', 'x']
+PRIM_FIELDS = {'Name': ('id',), 'arg': ('arg',), 'keyword': ('arg',), 'alias': ('asname',), 'Attribute': ('attr',),
+               'FunctionDef': ('name',), 'AsyncFunctionDef': ('name',), 'ClassDef': ('name',), 'ExceptHandler': ('name',),
+               'MatchAs': ('name',), 'MatchStar': ('name',), 'TypeVar': ('name',), 'ParamSpec': ('name',),
+               'TypeVarTuple': ('name',)}
+
+
+def _prim_slots(tree, nodes):
+    out = []
+    for n, p in nodes:
+        k = n.__class__.__name__
+        if _under_ftstr(tree, p):
+            continue
+        if k == 'Constant':
+            if _under_pattern(tree, p) or any(f == 'format_spec' for f, _ in p):
+                continue  # literal patterns have their own value rules (MatchValue / MatchSingleton)
+            par = node_at(tree, p[:-1]) if p else None
+            pool = PRIM_CONST
+            if isinstance(par, ast.Attribute) or n.value is ...:
+                pool = ['q', '\u00fc', 'two words']  # `5.real` needs parentheses: left to the expression put path
+            if isinstance(par, ast.Expr) and isinstance(n.value, str):
+                continue  # docstring positions: put_docstr has its own events
+            out.append((n, p, 'value', pool))
+        elif k in PRIM_FIELDS:
+            for fld in PRIM_FIELDS[k]:
+                cur = getattr(n, fld, None)
+                if cur is None:
+                    continue  # absent optional identifiers (`**kw`, no asname, bare except): setting them is an insertion
+                if k == 'MatchAs' and (n.pattern is None and cur == '_' or cur is None):
+                    continue
+                out.append((n, p, fld, PRIM_IDENT))
+    return out
+
+
+def plan_prim_sweep(tree, rng: random.Random, per_class=2):
+    """Systematic primitive puts over one program (each on a fresh tree): every Constant / identifier slot class
+    (node kind, field, kind of the parent) gets `per_class` puts with values cycling through the pools."""
+    nodes = [(n, p) for n, p in walk_paths(tree)]
+    slots = _prim_slots(tree, nodes)
+    rng.shuffle(slots)
+    seen, out = {}, []
+    for n, p, fld, pool in slots:
+        par = node_at(tree, p[:-1]).__class__.__name__ if p else ''
+        key = (n.__class__.__name__, fld, par, p[-1][0] if p else '')
+        j = seen.get(key, 0)
+        if j >= per_class:
+            continue
+        seen[key] = j + 1
+        val = pool[(len(out) + j) % len(pool)]
+        m = MiscPlan()
+        m.op, m.arg, m.path, m.kind = 'prim_put', repr(val), p, n.__class__.__name__
+        m.extra = {'field': fld, 'val': val}
+        out.append(m)
+    return out
+
+
 FV_POOL = ['b', 'a + 1', '{1, 2}', '{k: v}', '[e for e in s]', '{e for e in s}', 'f(x)', 'x if y else z', 'n.m[0]',
            '{k: v for k, v in d}', '(p, q)', 'not z', 'ü', '-1']
 
@@ -1184,6 +1241,16 @@ def plan_misc(rng: random.Random, tree, src=None, unpar_p=0.3):
     r = rng.random()
     m = MiscPlan()
     m.extra = {}
+    if rng.random() < 0.18:
+        # a primitive field is assigned through put(value, field=...): Constant.value, identifiers (DESIGN 9.4: these
+        # slots were outside every generator of C01/C03/C12 until round 3)
+        c = _prim_slots(tree, nodes)
+        if c:
+            n, p, fld, pool = rng.choice(c)
+            val = rng.choice(pool)
+            m.op, m.arg, m.path, m.kind = 'prim_put', repr(val), p, n.__class__.__name__
+            m.extra = {'field': fld, 'val': val}
+            return m
     fvs = [(n, p) for n, p in nodes if isinstance(n, ast.FormattedValue) and not any(f == 'format_spec' for f, _ in p)]
     if fvs and rng.random() < 0.3:
         # an edit INSIDE an f-string: the expression of a replacement field is replaced (self-documenting fields
@@ -1334,6 +1401,8 @@ def execute_misc(m: MiscPlan, root):
             f.unpar()
         elif m.op == 'fv_replace':
             f.value.replace(m.arg)
+        elif m.op == 'prim_put':
+            f.put(m.extra['val'], field=m.extra['field'])
         else:
             raise AssertionError(m.op)
     except Exception as e:  # noqa: BLE001
@@ -1346,5 +1415,6 @@ def make_misc_event(m: MiscPlan, exc, post) -> dict:
             'arg': 'None' if m.arg is None else m.arg.encode('ascii', 'backslashreplace').decode(),
             'outcome': 'ok' if exc is None else 'raise', 'exc': '' if exc is None else type(exc).__name__,
             'msg': '' if exc is None else str(exc)[:200].encode('ascii', 'replace').decode(),
-            'form': 'misc', 'field': '', 'codeform': '', 'start': bound(None), 'stop': bound(None), 'idx': bound(None),
+            'form': 'misc', 'field': m.extra.get('field') or '' if m.op == 'prim_put' else '', 'codeform': '',
+            'start': bound(None), 'stop': bound(None), 'idx': bound(None),
             'post': post}
